@@ -152,6 +152,19 @@ func (fr *Frame) inline(st *State, fn *ssa.Function, args []Value, bindings []Va
 		env[fv] = bindings[i]
 	}
 	v.hasDefersCheck(fn)
+	if tc := fr.topContract(); tc != nil && tc.Inner != nil {
+		if loops := tc.Inner[fn.Name()]; loops != nil {
+			// the contract annotates the loops of this inlined function
+			top := fr
+			for top.caller != nil {
+				top = top.caller
+			}
+			nf.c = &Contract{Func: fn.Name(), File: tc.File, Line: tc.Line, Loops: loops, Options: tc.Options, Alias: tc.Alias, Tags: tc.Tags}
+			nf.named = true
+			nf.entry = top.entry
+			nf.params = top.params
+		}
+	}
 	st.envs = append(st.envs, env)
 	depth := len(st.envs)
 	nf.run(fn.Blocks[0], nil, st, nil)
